@@ -25,6 +25,7 @@ type nilCtx struct {
 	scope   map[*ssa.Function]bool
 	memo    map[ssa.Value]int // 0 unknown, 1 in progress, 2 may be nil, 3 not nil
 	why     map[ssa.Value]string
+	cfgInvOK bool                             // constructor invariant: a constructed Provider's Config has a non-nil IDPConfig
 	spInvOK bool                              // constructor invariant: registered providers have Metadata and Metadata.SPSSODescriptor
 	chainFx map[*ssa.Function]map[string]bool // closure -> access paths known non-nil on entry (facts of earlier steps)
 	callers map[*ssa.Function][]ssa.CallInstruction
@@ -144,6 +145,30 @@ func (nc *nilCtx) mayBeNil0(v ssa.Value) bool {
 				}
 				return nc.note(v, fmt.Sprintf("optional element/record field %s.%s of an object filled from outside (absent element => nil)", owner, fv.Name()))
 			}
+			if constructed && isPtrLike(x.Type()) && !nc.storeDominatesLoad(a, x) {
+				// an object allocated in scope whose literal leaves this field at its zero value: the field is nil
+				// until some later code fills it, which nothing forces to have happened (a cache entry created
+				// empty and filled by whoever gets there first)
+				for l := range base {
+					if !strings.HasPrefix(l, "alloc:") {
+						continue
+					}
+					bl, sub := splitAllocLabel(l)
+					if sub != "" {
+						continue
+					}
+					cell := nc.vf.allocByLabel(bl)
+					if cell == nil || nc.vf.decoded[cell] {
+						continue
+					}
+					if st, ok := cell.Type().(*types.Pointer); !ok || !types.Identical(st.Elem(), derefType(a.X.Type())) {
+						continue
+					}
+					if !nc.fieldSetAtAlloc(cell, a.Field) {
+						return nc.note(v, fmt.Sprintf("field %s.%s of an object allocated at %s without a value for it (nil until filled later)", owner, fv.Name(), w.InstrPos(cell)))
+					}
+				}
+			}
 			if constructed {
 				// values stored by module code into this field of an object built in scope
 				for _, st := range nc.vf.fstores[fv] {
@@ -227,6 +252,198 @@ func (nc *nilCtx) mayBeNil0(v ssa.Value) bool {
 		}
 	}
 	return false
+}
+
+// fieldSetAtAlloc: the allocation's own function stores to field idx of the fresh object before the object can be
+// seen by anyone else: a store through a FieldAddr of the allocation itself that dominates every other use of the
+// allocation (the stores of a composite literal do).
+func (nc *nilCtx) fieldSetAtAlloc(cell *ssa.Alloc, idx int) bool {
+	var stores []*ssa.Store
+	var others []ssa.Instruction
+	for _, ref := range nonDebugRefs(cell) {
+		// the whole object is copied in (a by-value parameter or result spilled into a cell): its fields are
+		// those of the source, which is judged where it was built
+		if st, ok := ref.(*ssa.Store); ok && st.Addr == ssa.Value(cell) && st.Block() == cell.Block() {
+			return true
+		}
+		if fa, ok := ref.(*ssa.FieldAddr); ok {
+			onlyStores := true
+			for _, r2 := range nonDebugRefs(fa) {
+				st, isSt := r2.(*ssa.Store)
+				if !isSt || st.Addr != ssa.Value(fa) {
+					onlyStores = false
+					continue
+				}
+				if fa.Field == idx {
+					stores = append(stores, st)
+				}
+			}
+			if onlyStores {
+				continue // initialisation of (another) field
+			}
+		}
+		others = append(others, ref)
+	}
+	for _, st := range stores {
+		if isNilConst(st.Val) {
+			continue
+		}
+		ok := true
+		for _, o := range others {
+			if o.Block() == st.Block() {
+				if instrIndex(st) > instrIndex(o) {
+					ok = false
+				}
+			} else if !st.Block().Dominates(o.Block()) {
+				ok = false
+			}
+		}
+		if ok {
+			return true
+		}
+	}
+	return false
+}
+
+// storeDominatesLoad: in the load's function a store to the same field through the same base value (or the same
+// access path) dominates the load: `x.f = v; ... x.f.g`.
+func (nc *nilCtx) storeDominatesLoad(a *ssa.FieldAddr, ld *ssa.UnOp) bool {
+	fx := nc.cx.Fx
+	bp := fx.path(a.X)
+	for _, st := range fx.info(ld.Parent()).stores {
+		fa, ok := st.Addr.(*ssa.FieldAddr)
+		if !ok || fa.Field != a.Field || !types.Identical(fa.X.Type(), a.X.Type()) {
+			continue
+		}
+		if fa.X != a.X && fx.path(fa.X) != bp {
+			continue
+		}
+		if isNilConst(st.Val) {
+			continue
+		}
+		if st.Block() == ld.Block() && instrIndex(st) < instrIndex(ld) || st.Block() != ld.Block() && st.Block().Dominates(ld.Block()) {
+			return true
+		}
+		// dominates once the branches the constructor invariant rules out are removed (`if c.IDPConfig != nil`)
+		if nc.cfgInvOK && st.Block() != ld.Block() && !nc.reachAvoidingInv(ld.Parent().Blocks[0], ld.Block(), st.Block()) {
+			return true
+		}
+	}
+	return false
+}
+
+// reachAvoidingInv: to is reachable from from without passing avoid, not taking the edges on which
+// <provider.Config>.IDPConfig would be nil (impossible in a constructed provider, R-NIL-INV).
+func (nc *nilCtx) reachAvoidingInv(from, to, avoid *ssa.BasicBlock) bool {
+	fx := nc.cx.Fx
+	seen := map[*ssa.BasicBlock]bool{}
+	var dfs func(b *ssa.BasicBlock) bool
+	dfs = func(b *ssa.BasicBlock) bool {
+		if b == avoid || seen[b] {
+			return false
+		}
+		if b == to {
+			return true
+		}
+		seen[b] = true
+		for k, s := range b.Succs {
+			if ifi, ok := b.Instrs[len(b.Instrs)-1].(*ssa.If); ok && len(b.Succs) == 2 {
+				if x, tnn, isNT := nilTest(ifi.Cond); isNT && strings.HasSuffix(fx.T(fx.path(x)), "<provider.Config>.IDPConfig") {
+					nilSide := 1
+					if !tnn {
+						nilSide = 0
+					}
+					if k == nilSide {
+						continue
+					}
+				}
+			}
+			if dfs(s) {
+				return true
+			}
+		}
+		return false
+	}
+	return dfs(from)
+}
+
+// checkConfigInvariant (R-NIL-INV): Config.IDPConfig of a constructed provider is not nil: Provider.conf is stored only
+// by NewProvider, whose success returns are dominated by the call NewIdentityProvider(…, conf.IDPConfig, …), and
+// NewIdentityProvider dereferences that parameter, or has found it non-nil, on every path that returns a provider
+// (a nil IDPConfig panics or is refused at construction time, outside the quantifier of C09).
+func (cx *Ctx) checkConfigInvariant(r *Report) bool {
+	w, fx := cx.W, cx.Fx
+	np, ni := w.Func("provider.NewProvider"), w.Func("provider.NewIdentityProvider")
+	if np == nil || ni == nil {
+		return false
+	}
+	for _, fn := range w.Funcs {
+		for _, st := range fx.info(fn).stores {
+			if fa, ok := st.Addr.(*ssa.FieldAddr); ok && fieldOwner(fa.X.Type()) == "provider.Provider" && fname(fieldVar(fa.X.Type(), fa.Field)) == "conf" && fn != np {
+				return false
+			}
+			if fa, ok := st.Addr.(*ssa.FieldAddr); ok && fieldOwner(fa.X.Type()) == "provider.Config" && fname(fieldVar(fa.X.Type(), fa.Field)) == "IDPConfig" {
+				return false
+			}
+		}
+	}
+	var call *ssa.Call
+	for _, c := range callsIn(np) {
+		if cc, ok := c.(*ssa.Call); ok && calleeOf(cc) == ni {
+			call = cc
+		}
+	}
+	if call == nil {
+		return false
+	}
+	idx := -1
+	for i, a := range call.Call.Args {
+		if strings.HasSuffix(fx.T(fx.path(a)), "<provider.Config>.IDPConfig") {
+			idx = i
+		}
+	}
+	if idx < 0 {
+		return false
+	}
+	for _, ret := range returnsOf(np) {
+		if len(ret.Results) > 0 && !isNilConst(ret.Results[0]) && !(call.Block() == ret.Block() || call.Block().Dominates(ret.Block())) {
+			return false
+		}
+	}
+	// every successful path of NewIdentityProvider dereferences the parameter or has found it non-nil
+	aps, okp := fx.atomPaths(ni, 4096)
+	if !okp {
+		return false
+	}
+	par := ni.Params[idx]
+	pp := fx.path(par)
+	nSucc := 0
+	for i := range aps {
+		p := &aps[i]
+		if p.Ret == nil || len(p.Ret.Results) == 0 || isNilConst(fx.retVal(p, 0)) {
+			continue
+		}
+		nSucc++
+		good := false
+		for _, a := range p.Atoms {
+			if a.Op == "NIL" && a.Neg && a.A == pp {
+				good = true
+			}
+		}
+		for _, in := range p.Instrs() {
+			if fa, ok := in.(*ssa.FieldAddr); ok && fa.X == ssa.Value(par) {
+				good = true
+			}
+		}
+		if !good {
+			return false
+		}
+	}
+	if nSucc == 0 {
+		return false
+	}
+	r.Ok("R-NIL-INV", "Config.IDPConfig", w.InstrPos(call), "NewProvider succeeds only after NewIdentityProvider dereferenced conf.IDPConfig; Provider.conf and Config.IDPConfig are not written elsewhere")
+	return true
 }
 
 // a store `cell = s` counts only if s may be nil and is not guarded non-nil at the store
@@ -407,6 +624,7 @@ func checkC09(cx *Ctx, r *Report) {
 
 	// constructor invariant of registered providers
 	nc.spInvOK = cx.checkSPInvariant(r)
+	nc.cfgInvOK = cx.checkConfigInvariant(r)
 	nc.computeChainFacts(r)
 
 	// --- R-NIL ---------------------------------------------------------------------------
